@@ -1,0 +1,38 @@
+//go:build verif
+
+package head
+
+// Contracts for the deductive checks in /verif (comment-only; no code).
+// Property C03: a chain head is accepted only when signed by the expected publisher.
+
+//@ nonnil ErrBadSignature ErrNoSignature ErrNoPubkey
+
+// What is signed: the CID bytes followed by the topic, if there is one.
+//@ spec func headPayload(s val) int = bcat(cidBytesOf(str(as(s.Head, "cidlink.Link").Cid.str)), ite(s.Topic == nil, bempty(), ite(len(*s.Topic) == 0, bempty(), content(*s.Topic))))
+//@ spec func headOK(s val) bool = s.Head != nil && typeis(s.Head, "cidlink.Link")
+
+// From the property: a nil error means the signature verifies, under the
+// public key embedded in the head, over exactly that CID and topic, and the
+// result is the peer ID of that key.
+//@ func (SignedHead).Validate
+//@   property C03
+//@   pure
+//@   requires headOK(s)
+//@   ensures result1 == nil ==> sigOK(pubOfBytes(content(s.Pubkey)), headPayload(s), content(s.Sig))
+//@   ensures result1 == nil ==> str(result0) == idOfKey(pubOfBytes(content(s.Pubkey)))
+//@   ensures len(s.Sig) == 0 || len(s.Pubkey) == 0 ==> result1 != nil
+//@   ensures result1 != nil ==> str(result0) == str("")
+
+//@ func (*SignedHead).Sign
+//@   property C03
+//@   requires s != nil && s.Head != nil && typeis(s.Head, "cidlink.Link") && privKey != nil
+//@   modifies s.Pubkey, s.Sig
+//@   ensures result == nil ==> content(s.Sig) == sigOf(payload(privKey), bcat(cidBytesOf(str(as(s.Head, "cidlink.Link").Cid.str)), ite(s.Topic == nil, bempty(), ite(len(*s.Topic) == 0, bempty(), content(*s.Topic)))))
+//@   ensures result == nil ==> content(s.Pubkey) == marshalPub(pubOfPriv(payload(privKey)))
+
+//@ func NewSignedHead
+//@   property C03
+//@   requires privKey != nil
+//@   at call Sign#1: assert arg1 == privKey && str(as(arg0.Head, "cidlink.Link").Cid.str) == str(headCid.str)
+//@   at call Sign#1: assert ite(str(topic) == str(""), arg0.Topic == nil, arg0.Topic != nil && str(*arg0.Topic) == str(topic))
+//@   ensures result1 == nil ==> result0 != nil
